@@ -1,5 +1,6 @@
 """Driver: resolve contracts against the current source, generate and discharge obligations."""
 import ast
+import os
 import time
 
 from .core import FuncVC, Prover, Contract, Untranslatable
@@ -102,6 +103,7 @@ def _run_task(i):
     c, cname, params = _TASKS[i]
     qual = c.target + (f"[{cname}]" if cname else "")
     _PROVER.time = 0.0
+    _t0 = time.time()
     fv = FuncVC(qual, c.fn, c, _THEORY, _PROVER, cls_name=c.cls_name, def_cls=c.def_cls,
                 case_params=params, case_name=cname)
     try:
@@ -113,6 +115,8 @@ def _run_task(i):
         res = {f"{qual}:engine-error": (UNTRANSLATABLE, "engine error: " + traceback.format_exc(limit=6), 0)}
     if not res:
         res = {f"{qual}:no-obligations": (FAILED, "vacuity guard: the function generated no obligation", 0)}
+    if os.environ.get("PYVC_PROFILE"):
+        print(f"PROFILE {time.time() - _t0:7.1f}s solver={_PROVER.time:6.1f}s queries={_PROVER.queries} paths={getattr(fv, 'paths', '?')} {qual}", flush=True)
     return res, list(getattr(fv, "replays", [])), _PROVER.time
 
 
